@@ -53,6 +53,18 @@ def sim_config(draw, tier, small=True):
                        "deltaRTi": draw(st.sampled_from([1.45, 1.0, 2.0])), "deltaRTe": draw(st.sampled_from([1.45, 0.9, 2.3])),
                        "CTi": draw(st.sampled_from([1.0, 0.8])), "CTe": draw(st.sampled_from([1.0, 1.3])),
                        "kN0": draw(st.sampled_from([0.055, 0.08])), "deltaRN0": draw(st.sampled_from([2.9, 2.0]))}
+    if draw(st.integers(0, 2)) == 0:
+        # the domain and the field strength away from the defaults as well
+        vmax = draw(st.sampled_from([7.32, 6.5]))
+        cfg.setdefault("phys", {}).update({
+            "B0": draw(st.sampled_from([1.0, 1.7])), "rMin": draw(st.sampled_from([0.1, 0.5])),
+            "rMax": draw(st.sampled_from([14.5, 10.0])), "vMax": vmax, "vMin": draw(st.sampled_from([-vmax, -6.0])),
+            "rp": draw(st.sampled_from([7.3, 6.0])), "deltaR": draw(st.sampled_from([8.0, 5.0]))})
+    if draw(st.integers(0, 3)) == 0:
+        # spline degrees other than the cubic default (general, non-uniform-cubic code path of every operator)
+        # (Spline2D asserts that its two directions are both uniform-cubic or both general: r and theta go together)
+        cfg["splineDegrees"] = list(draw(st.sampled_from([(3, 3, 3, 4), (3, 3, 2, 3), (3, 3, 4, 2), (2, 4, 3, 3), (4, 2, 3, 3),
+                                                          (2, 2, 2, 2), (4, 4, 3, 4)])))
     return cfg
 
 
